@@ -268,7 +268,49 @@ func (c *Ctx) pureInvoke(ifaceT types.Type, m *types.Func, rt string, args []Val
 	for _, a := range args {
 		ts = append(ts, c.term(a))
 	}
+	// ground instances of the definitional axioms for this receiver (quantifier-free, so that the reduced
+	// query and E-matching-shy goals see them too)
+	if len(args) == 0 && c.specDepth == 0 {
+		if c.pureGround == nil {
+			c.pureGround = map[string]bool{}
+		}
+		key := name + "|" + rt
+		if !c.pureGround[key] && len(rt) < 200 {
+			c.pureGround[key] = true
+			for _, tp := range c.pureTemplates[name] {
+				inst := replaceToken(tp.body, tp.rname, rt)
+				c.lines = append(c.lines, fmt.Sprintf("(assert (=> (and (not (= %s 0)) (= (dtype %s) %s)) (= (%s %s) %s)))", rt, rt, tp.tag, name, rt, inst))
+			}
+		}
+	}
 	return Val{T: "(" + name + " " + strings.Join(ts, " ") + ")", Typ: resType}
+}
+
+type pureTemplate struct{ rname, body, tag string }
+
+// replaceToken replaces whole-symbol occurrences of name in an s-expression.
+func replaceToken(s, name, repl string) string {
+	var b strings.Builder
+	i := 0
+	for i < len(s) {
+		j := strings.Index(s[i:], name)
+		if j < 0 {
+			b.WriteString(s[i:])
+			break
+		}
+		j += i
+		end := j + len(name)
+		okL := j == 0 || strings.ContainsRune(" ()", rune(s[j-1]))
+		okR := end == len(s) || strings.ContainsRune(" ()", rune(s[end]))
+		b.WriteString(s[i:j])
+		if okL && okR {
+			b.WriteString(repl)
+		} else {
+			b.WriteString(name)
+		}
+		i = end
+	}
+	return b.String()
 }
 
 func (c *Ctx) declaredFn(name string) bool {
@@ -352,6 +394,12 @@ func (c *Ctx) emitPureAxioms(ifaceT types.Type, m *types.Func, name string, resT
 		guard := fmt.Sprintf("(and (not (= %s 0)) (= (dtype %s) %s))", r, r, c.tagOf(it))
 		c.lines = append(c.lines, fmt.Sprintf("(assert (forall (%s) (! (=> %s (= %s %s)) :pattern (%s))))",
 			strings.Join(decls, " "), guard, appT, body, appT))
+		if sig.Params().Len() == 0 {
+			if c.pureTemplates == nil {
+				c.pureTemplates = map[string][]pureTemplate{}
+			}
+			c.pureTemplates[name] = append(c.pureTemplates[name], pureTemplate{rname: r, body: body, tag: c.tagOf(it)})
+		}
 	}
 }
 
